@@ -15,14 +15,16 @@ pub struct FBig<RoundingMode: Round, const BASE: Word> {
 /// (same contract as in lib/conv_fbig_stubs.rs)
 #[verifier::external_body]
 pub fn shl_digits<const B: Word>(value: &IBig, exp: usize) -> (r: IBig)
-    requires B >= 2
+    requires B >= 2,
+        pos_room(exp as int),        // resource limit: exponent overflow is a documented panic (C16), not modelled
     ensures r.v() == value.v() * ipow(B as int, exp as nat)
 { unimplemented!() }
 /// utils::shr_digits: "Right shifting in given radix, i.e. divide by a power of radix"; the MAGNITUDE is shifted
 /// (shr_ref) resp. IBig `/` is used, both truncate towards zero  (same contract as in lib/conv_fbig_stubs.rs)
 #[verifier::external_body]
 pub fn shr_digits<const B: Word>(value: &IBig, exp: usize) -> (r: IBig)
-    requires B >= 2
+    requires B >= 2,
+        pos_room(exp as int),        // resource limit: exponent overflow is a documented panic (C16), not modelled
     ensures exists|lo: int| #[trigger] is_trunc_divrem(value.v(), ipow(B as int, exp as nat), r.v(), lo)
 { unimplemented!() }
 
